@@ -16,6 +16,10 @@ CHECKS = {
   text="Cache-coherence typestate for Sampler/QuickSampler decided on all paths of all methods: every read of a cached field is preceded by the staleness-checked refresh; cached fields are only assigned inside the refresh branch; the staleness predicate compares every snapshot entry; the snapshot records every configuration observable the recomputation reads (transitively through Source/Backend/Circuit accessors); Analyzer.analyze reads no result field it has not assigned in the same call. All reconfiguration histories are covered because the facts are per-method invariants; numeric equality of distributions is not claimed (not needed).",
   note="Trusted: frozen 4-line model of which Circuit accessors depend on U_full / heralds; global settings excluded; PostSelection compared by identity.",
   tech=TECH + "structured must-analysis (dominance of refresh over cache reads), read-set closure vs snapshot set comparison", ref="DESIGN.md §3 R-F; §4 C11"),
+ "C10": dict(
+  text="Comparison-normal-form guard analysis decides, for every value, that each write of Parameter's value/min/max (complete, name-mangled writer sets) is dominated by the comparisons keeping min <= value <= max and that no write precedes a possible raise (rejected update changes nothing); structural late-binding rules decide that components read parameter-bearing fields only through the resolving accessor, that the range check accepts exactly [0,1] on the *resolved* value and dominates matrix construction, that Circuit.U/U_full compile on every read and store nothing on the circuit, that collection/freezing reach every field of every component through groups and that every build exception is wrapped in CircuitCompilationError. The numeric value of the rebuilt unitary is not claimed.",
+  note="Trusted: CPython ast; literal implication table of the comparison normal form (> implies >=, == implies <=,>=); unpack_circuit_spec flattens groups (decided under C09).",
+  tech=TECH + "guard facts in comparison normal form (CNF clauses over normalised terms), CFG dominance, write-before-raise dataflow, structural exhaustiveness checks", ref="DESIGN.md §3 R-E, R-D, R-H; §4 C10"),
 }
 NA = {}
 
